@@ -10,3 +10,5 @@ pub mod tables;
 pub mod c02;
 #[cfg(kani)]
 pub mod c04;
+#[cfg(kani)]
+pub mod c16;
